@@ -33,7 +33,7 @@ ARG_MC = {
 ARG_RANDOM = {'quick': (120, 60), 'thorough': (1500, 80)}
 
 ARG_DOMKEY = {'C11': 'd11', 'C01': 'd01', 'C02': 'd02', 'C03': 'd03', 'C04': 'd04', 'C06': 'd06', 'C07': 'd07', 'C08': 'd08', 'C09': 'd09', 'C10': 'd10'}
-ARG_PROPS = ['C01', 'C02', 'C03', 'C04', 'C06', 'C07', 'C08', 'C09', 'C10', 'C11', 'C15', 'DRIFT']
+ARG_PROPS = ['C01', 'C02', 'C03', 'C04', 'C06', 'C07', 'C08', 'C09', 'C10', 'C11', 'C15', 'DRIFT', 'MSG']
 
 
 class ArgParseFamily:
@@ -119,6 +119,7 @@ class ArgParseFamily:
         samples = []
         domcount = 0
         drift = 0
+        msgdrift, msgcmp = 0, 0
         if prop in ARG_MC or prop in ('C02', 'C11'):
             if prop == 'C11':
                 mc_states, mc_trans, scns, d, mcinfo = self.mc_conv(ctx)
@@ -146,6 +147,8 @@ class ArgParseFamily:
             mc_records = n
             domcount += stats.get(ARG_DOMKEY[prop], 0)
             drift += len(bad['DRIFT'])
+            msgdrift += len(bad.get('MSG', []))
+            msgcmp += stats.get('msg', 0)
             lines = open(rec).read().splitlines()
             trees = open(cat).read().splitlines()
             for i in bad[prop]:
@@ -160,13 +163,15 @@ class ArgParseFamily:
         bad, stats, rn = ctx.validate('rv', 'Trace_ArgParse', rrec, os.path.join(ctx.work, 'r_decls.ndjson'), ARG_PROPS)
         domcount += stats.get(ARG_DOMKEY[prop], 0)
         drift += len(bad['DRIFT'])
+        msgdrift += len(bad.get('MSG', []))
+        msgcmp += stats.get('msg', 0)
         rlines = open(rrec).read().splitlines()
         rtrees = open(os.path.join(ctx.work, 'r_trees.ndjson')).read().splitlines()
         for i in bad[prop]:
             bad_all.append(('random', i, rlines[i - 1], rtrees))
         samples += [self.sample(rlines[k]) for k in (0, len(rlines) // 3, 2 * len(rlines) // 3) if rlines]
-        ctx.log('validated %d recorded random scenarios: %d disagree on %s; %d in the property\'s domain; model drift %d'
-                % (rn, len(bad[prop]), prop, domcount, drift))
+        ctx.log('validated %d recorded random scenarios: %d disagree on %s; %d in the property\'s domain; model drift %d; error-message wording compared %d, differing %d'
+                % (rn, len(bad[prop]), prop, domcount, drift, msgcmp, msgdrift))
         # 4: classify
         viol = 0
         known_hits = {}
@@ -190,6 +195,7 @@ class ArgParseFamily:
             'exhaustive': False,
             'mc_bounds': mcinfo, 'mc_scenarios_replayed_on_impl': mc_records, 'random_scenarios_recorded_and_validated': rn,
             'in_property_domain': domcount, 'grey_no_verdict': stats.get('grey', 0), 'model_drift_records': drift,
+            'error_message_wordings_compared': msgcmp, 'error_message_wordings_differing': msgdrift,
             'known_finding_hits': {k: v[0] for k, v in known_hits.items()},
             'rule': 'a scenario is (declaration, parser options, handler, environment, argv); the exhaustive part enumerates all vectors up to mc_bounds.maxlen over the alphabet the specification derives from each catalogue declaration; the random part builds validity-biased vectors over random declarations; in_property_domain counts scenarios that meet the property\'s antecedent',
         }
